@@ -815,7 +815,7 @@ def r_dir(d):
         cachefile = os.path.join(top, cfg.get("handlers.dir.DirHandler", "cachefile"))
         h = mk(); h.prepare(); h.getdirlist()
         good = open(cachefile, "rb").read() if os.path.exists(cachefile) else b""
-        if "loadcache" in name or "prepare" in name:
+        if "loadcache" in name or "prepare" in name or "savecache" in name:
             # C11: any prefix of the cache / zero fill must be harmless
             for n in list(range(0, len(good))) + [-1]:
                 data = good[:n] if n >= 0 else b"\\0" * len(good)
@@ -829,6 +829,46 @@ def r_dir(d):
                         return {"confirmed": True, "scenario": "cache file cut to %d of %d bytes" % (n, len(good)), "handler": cls.__name__, "raised": repr(e)}
                     if names != ["/a.txt", "/b.txt", "/c.txt"]:
                         return {"confirmed": True, "scenario": "cache file cut to %d bytes" % n, "listing": names}
+            # C11: a writer killed in the middle of writing the cache (after k bytes of the pickle): whatever it leaves in the
+            # directory, the next listing is the correct, complete one
+            for k in (0, 1, 7, 40, max(len(good) - 1, 0)):
+                for f_ in glob_cache(top, cachefile):
+                    os.unlink(f_)
+                before_ = set(os.listdir(top))
+                pid = os.fork()
+                if pid == 0:
+                    try:
+                        real_dump = pickle.dump
+
+                        def dying_dump(obj, fp, *a, **kw):
+                            data_ = pickle.dumps(obj, *a, **kw)
+                            fp.write(data_[:k])
+                            fp.flush()
+                            os._exit(9)
+                        pickle.dump = dying_dump
+                        hk = mk(); hk.prepare(); hk.getdirlist()
+                    finally:
+                        os._exit(8)
+                os.waitpid(pid, 0)
+                left = sorted(set(os.listdir(top)) - before_)
+                for cls in (DirHandler, UMNDirHandler):
+                    h = mk(cls)
+                    try:
+                        h.prepare()
+                        names = sorted(e.selector for e in h.getdirlist())
+                    except Exception as e:  # noqa
+                        return {"confirmed": True, "scenario": "the writer of the cache was killed after %d bytes; the next request raised" % k, "handler": cls.__name__, "raised": repr(e), "left behind": left}
+                    if names != ["/a.txt", "/b.txt", "/c.txt"]:
+                        return {"confirmed": True, "scenario": "the writer of the cache was killed after %d bytes; the next listing is not the directory's" % k, "listing": names, "left behind": left}
+                for f_ in left:
+                    if not f_.startswith(cfg.get("handlers.dir.DirHandler", "cachefile")):
+                        try:
+                            os.unlink(os.path.join(top, f_))
+                        except OSError:
+                            pass
+            for f_ in glob_cache(top, cachefile):
+                os.unlink(f_)
+            h = mk(); h.prepare(); h.getdirlist()
             # C11: with a history (an earlier generation of the cache, a directory that changed since) a damaged cache still
             # means "regenerate", never "something older"
             for f_ in glob_cache(top, cachefile):
@@ -1057,6 +1097,30 @@ def r_dir(d):
                 import shutil as _sh4
                 _sh4.rmtree(os.path.join(top, ".cap"), ignore_errors=True)
                 _sh4.rmtree(os.path.join(top, ".archive"), ignore_errors=True)
+            # C08: an override (a .cap file, a Path=./name block) touches only the fields it sets: the file's sidecar abstract stays
+            ov = os.path.join(top, "ovr")
+            os.makedirs(os.path.join(ov, ".cap"), exist_ok=True)
+            for n_ in ("plain.txt", "capped.txt", "named.txt", "own.txt"):
+                open(os.path.join(ov, n_), "w").write("x\n")
+                open(os.path.join(ov, n_ + ".abstract"), "w").write("Sidecar abstract of %s\n" % n_)
+            open(os.path.join(ov, ".cap", "capped.txt"), "w").write("Name=Capped title\nNumb=2\n")
+            open(os.path.join(ov, ".names"), "w").write("Name=Named title\nPath=./named.txt\n\nName=Own title\nPath=./own.txt\nAbstract=Abstract given by the block\n")
+            prev_ae = cfg.get("pygopherd", "abstract_entries")
+            try:
+                cfg.set("pygopherd", "abstract_entries", "always")
+                hb.rootpath = None; hm.rootpath = None; hm.handlers = None
+                out, _l = _serve(b"/ovr\r\n", cfg)
+                text_ = out.decode("utf-8", "replace")
+                for want in ("Sidecar abstract of plain.txt", "Sidecar abstract of capped.txt", "Sidecar abstract of named.txt", "Abstract given by the block", "Capped title", "Named title", "Own title"):
+                    if want not in text_:
+                        return {"confirmed": True, "scenario": "a .cap file / Path=./name block that sets only Name (and Numb) must leave the file's sidecar abstract in place; expected %r in the listing of /ovr" % want,
+                                "listing": repr(text_[:900])}
+                if "Sidecar abstract of own.txt" in text_:
+                    return {"confirmed": True, "scenario": "a block that sets Abstract= overrides the sidecar abstract", "listing": repr(text_[:900])}
+            finally:
+                cfg.set("pygopherd", "abstract_entries", prev_ae)
+                import shutil as _sh10
+                _sh10.rmtree(ov, ignore_errors=True)
             # C08: a directory holding nothing but link files lists its link entries; the order of lines inside a block does not matter
             os.makedirs(os.path.join(top, "services"), exist_ok=True)
             open(os.path.join(top, "services", ".Links"), "w").write("Name=Finger information\nType=0\nPath=lindner\nHost=mudhoney.example\nPort=79\n\n"
@@ -1272,6 +1336,19 @@ def r_site_crawl(d):
                     n = int(head[1:])
                     if rest != files[name] or (n != -2 and n != len(rest)):
                         return {"confirmed": True, "protocol": "gopher+", "selector": sel, "length_header": n, "body_len": len(rest)}
+        # every regular file under the root, asked for by its exact name, is delivered byte for byte (and is in the menu)
+        menu_sels = {l.split("\t")[1] for l in out.decode("utf-8", "surrogateescape").split("\r\n") if l.count("\t") >= 3}
+        for name_, data_ in files.items():
+            sel_ = "/" + name_
+            body, logs = _serve(sel_.encode("utf-8", "surrogateescape") + b"\r\n", cfg)
+            if body != data_:
+                return {"confirmed": True, "protocol": "gopher", "selector": sel_, "scenario": "a regular file asked for by its exact name is not delivered byte for byte", "body": repr(body[:60]), "expected": repr(data_[:60])}
+            if sel_ not in menu_sels:
+                return {"confirmed": True, "protocol": "gopher", "selector": sel_, "scenario": "a regular file of the root directory is missing from the root menu", "menu": sorted(menu_sels)[:30]}
+            resp, logs = _serve(b"GET " + urllib.parse.quote(sel_, errors="surrogateescape").encode() + b" HTTP/1.0\r\n\r\n", cfg)
+            head, _, body = resp.partition(b"\r\n\r\n")
+            if not head.startswith(b"HTTP/1.0 200") or body != data_:
+                return {"confirmed": True, "protocol": "http", "selector": sel_, "scenario": "a regular file asked for by its exact (percent-encoded) name is not delivered byte for byte", "status": head[:40].decode("latin-1"), "body": repr(body[:60])}
         # HTTP: follow the HREFs of the server's own listing
         out, logs = _serve(b"GET / HTTP/1.0\r\n\r\n", cfg)
         first = out
@@ -1327,7 +1404,7 @@ def _first_confirmed(*fns):
     return run
 
 
-REALISERS.append(("pygopherd/handlers/HandlerMultiplexer.py::", _first_confirmed(r_site_crawl, lambda d: r_dir(dict(d, obligation=d.get("obligation", "") + " prep_entries")))))
+REALISERS.append(("pygopherd/handlers/HandlerMultiplexer.py::", _first_confirmed(r_site_crawl, lambda d: r_dir(dict(d, obligation=d.get("obligation", "") + " prep_entries")), lambda d: r_zip(d))))
 REALISERS.append(("pygopherd/handlers/base.py::VFS_Real.copyto", _first_confirmed(r_copyto, lambda d: r_handle_faults(dict(d, function="pygopherd/protocols/rfc1436.py::GopherProtocol.canhandlerequest")))))
 REALISERS.append(("pygopherd/protocols/http.py::HTTPProtocol.handle", lambda d: (r_handle_faults(d) if d.get("kind") != "standin" else (lambda a, b: a if a.get("confirmed") else b)(r_site_crawl(d), r_handle_faults(d)))))
 
@@ -1631,6 +1708,31 @@ def r_zip(d):
         if b"new.c" not in a2 or b"old.c" in a2 or c2 != b"two, longer\n" or not o2.startswith(b"3"):
             return {"confirmed": True, "scenario": "rel.zip was replaced by a newer archive between two requests: the answers still describe the old one",
                     "listing": repr(a2[:200]), "common.txt": repr(c2[:40]), "old.c": repr(o2[:60])}
+        # one long-lived process: what was browsed inside archives earlier does not change later answers
+        hb.rootpath = None; hm.rootpath = None; hm.handlers = None
+        probes = [b"/T.zip\r\n", b"/T/a.txt\r\n", b"/\r\n", b"/T.zip\t$\r\n", b"GET /T.zip HTTP/1.0\r\n\r\n", b"/T.zip/dir/b.txt\r\n", b"/D.zip\r\n"]
+
+        def ask_all():
+            out = []
+            for rq in probes:
+                try:
+                    o, _l = _serve(rq, cfg)
+                except BaseException as e:  # noqa
+                    o = b"RAISED " + repr(e).encode()
+                out.append(norm(o))
+            return out
+
+        first = ask_all()
+        for rq in (b"/T.zip/dir\r\n", b"/T.zip/dir/sub/c.txt\r\n", b"/T.zip/missing\r\n", b"/T.zip/ln_dir/b.txt\r\n", b"/R.zip/inner.zip\r\n", b"/T.zip/gm\t$\r\n"):
+            try:
+                _serve(rq, cfg)
+            except BaseException:  # noqa
+                pass
+        second = ask_all()
+        for rq, a_, b_ in zip(probes, first, second):
+            if a_ != b_:
+                return {"confirmed": True, "scenario": "request %r is answered differently after other (read-only) requests into archives were served by the same process" % rq,
+                        "first": repr(a_[:200]), "later": repr(b_[:200])}
         return {"confirmed": None, "note": "real-file scenarios passed; %d archive/extracted comparisons agree" % n}
     finally:
         os.chdir(old_cwd)
@@ -1849,7 +1951,13 @@ def r_tal(d):
             ["<li>first</li><li>(untitled)</li><li>third</li>"], "default in a repeated element keeps the template text on that pass, whatever the previous pass produced"),
            ('<span tal:repeat="it rows2" tal:replace="it/label | nothing">x</span>|<em tal:repeat="it rows2" tal:content="it/label | default">d</em>', {"rows2": [{}, {"label": "b"}, {}]},
             ["b|<em>d</em><em>b</em><em>d</em>"], "nothing / default across repeat passes"),
-           ('<a href="old" tal:attributes="href string:new; title default" title="t" tal:omit-tag="nothing">L</a>', {}, ['href="new"', 'title="t"', "</a>"], "attributes / default / omit-tag")]
+           ('<a href="old" tal:attributes="href string:new; title default" title="t" tal:omit-tag="nothing">L</a>', {}, ['href="new"', 'title="t"', "</a>"], "attributes / default / omit-tag"),
+           ('<ul><li tal:repeat="row rows3"><a href="/fallback" tal:attributes="href row/url | default" tal:content="row/name">x</a></li></ul>',
+            {"rows3": [{"name": "one", "url": "/one"}, {"name": "two"}, {"name": "three", "url": None}, {"name": "four"}]},
+            ['<a href="/one">one</a>', '<a href="/fallback">two</a>', "<a>three</a>", '<a href="/fallback">four</a>'],
+            "tal:attributes starts from the template's own attributes on every pass of a repeat: default restores the template value whatever the previous pass set"),
+           ('<p tal:condition="exists:nope1 | exists:nope2">gone</p><b tal:condition="not:exists:nope1 | exists:nope2">shown</b><i tal:condition="exists:nope1 | exists:rows3">also</i>', {"rows3": [1]},
+            ["<b>shown</b>", "<i>also</i>"], "exists: with alternatives: a later alternative that is itself an exists:/not: expression counts by its value, a plain existing path by its existence")]
     for tsrc, extra, needles, why in SEM:
         ctx = simpleTALES.Context()
         for k_, v_ in extra.items():
@@ -1862,6 +1970,31 @@ def r_tal(d):
         doc = out.getvalue()
         if not all(n_ in doc for n_ in needles) or "gone" in doc:
             return {"confirmed": True, "scenario": why, "template": tsrc, "output": doc, "expected to contain": needles}
+    # ---- a compiled template expanded twice gives the same document twice (nothing of an expansion is kept in the program)
+    t2 = simpleTAL.compileHTMLTemplate('<div><a href="/fallback" class="k" tal:attributes="href link | default">l</a></div>')
+    docs = []
+    for link in ("/first", None, "/third"):
+        ctx = simpleTALES.Context()
+        if link is not None:
+            ctx.addGlobal("link", link)
+        out = _io.StringIO()
+        t2.expand(ctx, out)
+        docs.append(out.getvalue())
+    want2 = ['<div><a href="/first" class="k">l</a></div>', '<div><a href="/fallback" class="k">l</a></div>', '<div><a href="/third" class="k">l</a></div>']
+    norm_atts = lambda x: x.replace('class="k" href=', 'href=').replace(' class="k"', "")
+    if [norm_atts(x) for x in docs] != [norm_atts(x) for x in want2]:
+        return {"confirmed": True, "scenario": "the same compiled template expanded three times (link given, link missing -> default, link given): every expansion starts from the template's own attributes",
+                "outputs": docs, "expected": want2}
+    # ---- a template without TAL: explicitly empty attribute values stay empty, minimised attributes stay attributes
+    for tsrc in ('<p><img alt="" src="x.png"><input value="" name="q"><a href="">here</a><option selected>o</option></p>',):
+        out = _io.StringIO()
+        simpleTAL.compileHTMLTemplate(tsrc).expand(simpleTALES.Context(), out)
+        doc = out.getvalue()
+        for needle in ('alt=""', 'value=""', 'href=""'):
+            if needle not in doc:
+                return {"confirmed": True, "scenario": "a template without TAL attributes: the explicitly empty attribute value %s must survive expansion" % needle, "template": tsrc, "output": doc}
+        if 'alt="alt"' in doc or 'value="value"' in doc or 'href="href"' in doc:
+            return {"confirmed": True, "scenario": "an explicitly empty attribute value was rewritten as a minimised attribute", "template": tsrc, "output": doc}
     # ---- METAL: a fill-slot belongs to the nearest enclosing use-macro
     lib = simpleTAL.compileHTMLTemplate('<html><div metal:define-macro="outer">O[<span metal:define-slot="body">obody</span>|<span metal:define-slot="foot">ofoot</span>]</div>'
                                         '<p metal:define-macro="inner">I[<i metal:define-slot="body">ibody</i>|<i metal:define-slot="foot">ifoot</i>]</p></html>')
@@ -2006,14 +2139,23 @@ def r_sidecars(d):
                  "plain.txt.3d": "x" * 70 + " filler words +ADMIN: Admin: Mallory <m@evil.example> and more filler text so that the line is long enough to be folded twice +ABSTRACT: injected\n",
                  "notes.txt.abstract": "First paragraph.\n\nSecond paragraph   \n  indented\n\n\nlast", "notes.txt.keywords": "k1\n\nk2\n",
                  "report.abstract": "Abstract of the extensionless report\n", "sub/.abstract": "Directory abstract\n\nwith a blank line\n"}
+        # compressed copies next to a document that has sidecars; sidecar files of length zero (a block without lines)
+        texts.update({"paper.txt.abstract": "About the paper\n", "paper.txt.keywords": "paper\n", "data.tar.3d": "3d of the tar\n", "data.tar.gz.abstract": "Own abstract of the tarball\n",
+                      "empty.txt.keywords": "", "emptydir/.3d": "", "empty.txt.abstract": "has an abstract too\n"})
         os.makedirs(os.path.join(top, "sub"))
-        for n in ("notes.txt", "report", "report.txt", "plain.txt", "sub/x.txt"):
+        os.makedirs(os.path.join(top, "emptydir"))
+        for n in ("notes.txt", "report", "report.txt", "plain.txt", "sub/x.txt", "paper.txt", "paper.txt.gz", "data.tar", "data.tar.gz", "paper.tgz", "empty.txt", "emptydir/y.txt"):
             open(os.path.join(top, n), "w").write("data\n")
         for n, t in texts.items():
             open(os.path.join(top, n), "w").write(t)
         exts = {".abstract": "ABSTRACT", ".keywords": "KEYWORDS", ".ask": "ASK", ".3d": "3D"}
-        for sel in ("/notes.txt", "/report", "/report.txt", "/plain.txt", "/sub"):
+        from pygopherd import initialization as _ini_sc, logger as _lg_sc
+        _lg_sc.log = lambda m: None
+        _ini_sc.init_mimetypes(cfg)
+        for sel in ("/notes.txt", "/report", "/report.txt", "/plain.txt", "/sub", "/paper.txt", "/paper.txt.gz", "/data.tar", "/data.tar.gz", "/paper.tgz", "/empty.txt", "/emptydir"):
             out, _l = _serve(sel.encode() + b"\t!\r\n", cfg)
+            if any("EXCEPTION" in l_ and "FileNotFound" not in l_ for l_ in _l) or not out.startswith(b"+-2\r\n+INFO: "):
+                return {"confirmed": True, "scenario": "item information request for %s is not answered with the item's blocks" % sel, "answer": repr(out[:200]), "log": _l[-1:]}
             blocks = {}
             cur = None
             for line in out.decode("utf-8", "replace").split("\r\n"):
@@ -2023,11 +2165,11 @@ def r_sidecars(d):
                 elif cur is not None and line.startswith(" "):
                     blocks[cur].append(line[1:])
             for ext, name in exts.items():
-                side = os.path.join(top, (sel[1:] + "/" if sel == "/sub" else sel[1:]) + ext)
+                side = os.path.join(top, (sel[1:] + "/" if sel in ("/sub", "/emptydir") else sel[1:]) + ext)
                 if os.path.exists(side):
                     want = [x.rstrip() for x in open(side).read().split("\n")]
                     if want and want[-1] == "":
-                        want = want[:-1] if open(side).read().endswith("\n") else want
+                        want = want[:-1] if (open(side).read().endswith("\n") or open(side).read() == "") else want
                     got_b = blocks.get(name)
                     big = os.path.getsize(side) > 20480
                     # a sidecar beyond the 20480-byte read hint is cut at a line boundary: whole lines, in order, from the start
@@ -2110,6 +2252,28 @@ def r_mail(d):
             if not expect_found and not out.startswith(b"3"):
                 return {"confirmed": True, "scenario": "request for message %d of a mailbox with %d messages is not answered with a not-found line" % (num, len(subjects)),
                         "response": repr(out[:160]), "log": logs[-1:]}
+        # whatever follows the message flag is answered (digits int() refuses: superscripts, circled digits; the counter-model's own argument)
+        maild = os.path.join(top, "md")
+        for sub in ("new", "cur", "tmp"):
+            os.makedirs(os.path.join(maild, sub))
+        open(os.path.join(maild, "new", "1"), "w").write("Subject: one\n\nbody\n")
+        args = ["\u00b2", "\u2462", "1\u00b2", "\u0663", "\u00bd", "-1", "+1", " 1", "1 ", "1_0", "0x1", "1\n", "\uff11"]
+        mv = (d.get("model") or {}).get("self.selectorargs")
+        if isinstance(mv, str):
+            for flag in ("/MBOX-MESSAGE/", "/MAILDIR-MESSAGE/"):
+                if mv.startswith(flag):
+                    args.insert(0, mv[len(flag):])
+        for a in args:
+            for sel in ("/box.mbox|/MBOX-MESSAGE/" + a, "/md|/MAILDIR-MESSAGE/" + a):
+                raw = sel.encode("utf-8", "surrogateescape")
+                for label, req in (("gopher", raw + b"\r\n"), ("http", b"GET " + urllib_quote(sel).encode() + b" HTTP/1.0\r\n\r\n")):
+                    try:
+                        out, logs = _serve(req, cfg)
+                    except BaseException as e:  # noqa
+                        out, logs = b"", ["RAISED " + repr(e)]
+                    bad = [l for l in logs if ("EXCEPTION" in l and "FileNotFound" not in l) or l.startswith("RAISED")]
+                    if bad or not out:
+                        return {"confirmed": True, "scenario": "message selector %r (%s) is not answered with one well-formed response" % (sel, label), "response": repr(out[:120]), "log": bad[-1:]}
         return {"confirmed": None, "note": "mail subjects stay inside their lines"}
     finally:
         shutil.rmtree(top, ignore_errors=True)
@@ -2117,6 +2281,68 @@ def r_mail(d):
 
 
 REALISERS.append(("pygopherd/handlers/mbox.py::MessageHandler.get", r_mail))
+REALISERS.append(("pygopherd/handlers/mbox.py::MessageHandler.canhandlerequest", r_mail))
+for _m in ("getfspath", "open", "stat", "listdir", "isdir", "isfile", "exists"):
+    REALISERS.append(("pygopherd/handlers/base.py::VFS_Real." + _m, lambda d: (_first_confirmed(r_c01_audit, r_site_crawl)(d) if d.get("kind") == "standin" else r_c01_audit(d))))
+
+
+# ------------------------------------------------------------------- configured MIME tables (C04 stand-in)
+def r_mimetypes(d):
+    """[pygopherd] mimetypes / encoding are what decides the advertised type: with the shipped tables and with an
+    encoding list that overrides the built-in one, the type of every name (HTTP Content-Type, Gopher+ +VIEWS) is the
+    one a reference reading of the configured tables gives."""
+    import mimetypes as _mt, shutil, tempfile
+    import pygopherd.handlers.base as hb
+    import pygopherd.handlers.HandlerMultiplexer as hm
+    from pygopherd import initialization, logger
+    logger.log = lambda m: None
+    top = tempfile.mkdtemp(prefix="pyvc-mime-", dir="/var/tmp")
+    try:
+        names = ["a.txt", "b.html", "c.tar.gz", "backup.tar.xz", "notes.txt.bz2", "old.txt.Z", "page.html.br", "d.tgz", "e.gz", "f.unknownext", "g.TXT", "h.tar.Z", "noext"]
+        for n_ in names:
+            open(os.path.join(top, n_), "wb").write(b"x\n")
+        table = os.path.join(top, ".mime.types")
+        open(table, "w").write("text/x-special\tunknownext\napplication/x-xz\txz\n")
+        for enc_opt, extra_files in ((None, []), ("[('.gz', 'gzip')]", []), ("[('.gz', 'gzip'), ('.Z', 'compress')]", [table])):
+            cfg = _config({})
+            cfg.set("pygopherd", "root", top)
+            if enc_opt is not None:
+                cfg.set("pygopherd", "encoding", enc_opt)
+            if extra_files:
+                cfg.set("pygopherd", "mimetypes", cfg.get("pygopherd", "mimetypes") + ":" + ":".join(extra_files))
+            hb.rootpath = None; hm.rootpath = None; hm.handlers = None
+            import pygopherd.gopherentry as _ge
+            _ge.mapping = None
+            ref_enc = dict(eval(cfg.get("pygopherd", "encoding"), {"mimetypes": _mt}))
+            initialization.init_mimetypes(cfg)
+            ref = _mt.MimeTypes()
+            ref.encodings_map = ref_enc
+            for f_ in cfg.get("pygopherd", "mimetypes").split(":"):
+                if os.path.isfile(f_) and os.access(f_, os.R_OK):
+                    ref.read(f_)
+            default = cfg.get("GopherEntry", "defaultmimetype")
+            for n_ in names:
+                ty, enc = ref.guess_type("/" + n_, strict=False)
+                expect = "application/octet-stream" if enc else (ty or default)
+                resp, _l = _serve(b"HEAD /" + n_.encode() + b" HTTP/1.0\r\n\r\n", cfg)
+                got = None
+                for h_ in resp.split(b"\r\n"):
+                    if h_.lower().startswith(b"content-type:"):
+                        got = h_.split(b":", 1)[1].strip().decode()
+                if got != expect:
+                    return {"confirmed": True, "scenario": "encoding = %s, mimetypes += %s: %s is advertised (HTTP) as %r, the configured tables say %r" % (enc_opt or "(shipped)", [os.path.basename(x) for x in extra_files], n_, got, expect)}
+                info, _l = _serve(b"/" + n_.encode() + b"\t!\r\n", cfg)
+                views = [l for l in info.decode("latin-1").split("\r\n") if l.startswith(" ") and "/" in l and ":" in l]
+                if not any(l.strip().startswith(expect + ":") or l.strip().startswith(expect + " ") for l in views):
+                    return {"confirmed": True, "scenario": "encoding = %s: +VIEWS of %s does not name the configured type %r" % (enc_opt or "(shipped)", n_, expect), "views": views[:3]}
+        return {"confirmed": None, "note": "advertised types follow the configured tables"}
+    finally:
+        shutil.rmtree(top, ignore_errors=True)
+        hb.rootpath = None; hm.rootpath = None; hm.handlers = None
+
+
+REALISERS.append(("pygopherd/initialization.py::init_mimetypes", r_mimetypes))
+REALISERS.append(("pygopherd/gopherentry.py::GopherEntry.populatefromfs", lambda d: (r_mimetypes(d) if d.get("kind") == "standin" else {"confirmed": None, "note": "no counter-model replay"})))
 
 
 # ------------------------------------------------------------------- real sockets, clear text and TLS (C04 stand-in)
@@ -2191,6 +2417,22 @@ def r_real_sockets(d):
                 if got != content:
                     return {"confirmed": True, "scenario": "%s fetched through %s on a real socket is not the file's bytes" % (n, label),
                             "expected bytes": len(content), "received": (len(got) if got is not None else None), "response head": repr(resp[:120])}
+        # long first lines: the protocol is chosen from the whole line, whatever its length (the distinguishing token of
+        # HTTP, Gopher+ and Spartan is at its end)
+        for pad in (900, 1100, 3000, 9000):
+            q = b"x" * pad
+            longcases = [("http", b"GET /small.txt?" + q + b" HTTP/1.0\r\n\r\n", False, lambda r: r.startswith(b"HTTP/1.0 200") and r.endswith(files["small.txt"])),
+                         ("https", b"GET /small.txt?" + q + b" HTTP/1.0\r\n\r\n", True, lambda r: r.startswith(b"HTTP/1.0 200") and r.endswith(files["small.txt"])),
+                         ("gopher+", b"/small.txt\t+" + b"\r\n", False, lambda r: r.startswith(b"+")),
+                         ("gopher+ with a long selector", b"/" + q + b"\t+\r\n", False, lambda r: r.startswith(b"--")),
+                         ("gopher with a long selector", b"/" + q + b"\r\n", False, lambda r: r.startswith(b"3")),
+                         ("http with a long missing path", b"GET /" + q + b" HTTP/1.0\r\n\r\n", False, lambda r: r.startswith(b"HTTP/1.0 404")),
+                         ("spartan with a long path", b"localhost /" + q + b" 0\r\n", False, lambda r: r.startswith(b"4 "))]
+            for label, req, tls, ok in longcases:
+                resp = fetch(req, tls)
+                if not ok(resp):
+                    return {"confirmed": True, "scenario": "a %d-byte first line (%s) is not answered by the protocol its whole line selects" % (len(req.split(b"\r\n")[0]) + 2, label),
+                            "response head": repr(resp[:120])}
         # a client that resets the connection in the middle of a large document: nothing may leave the connection handler
         import struct, time as _t2
         open(os.path.join(top, "huge.bin"), "wb").write(b"\x5a" * (8 << 20))
@@ -2530,6 +2772,11 @@ def r_links(d):
         open(os.path.join(top, "local.txt"), "w").write("x")
         open(os.path.join(top, "release%20notes.txt"), "w").write("a name with a literal percent-twenty\n")
         open(os.path.join(top, "50%25 off.txt"), "w").write("a name with a literal percent-25 and a blank\n")
+        open(os.path.join(top, "a+b=c (1).txt"), "w").write("plus, equals, parentheses\n")
+        open(os.path.join(top, "g++ notes;v2.txt"), "w").write("two plus signs and a semicolon\n")
+        open(os.path.join(top, "line\u2028sep.txt"), "w").write("a name with U+2028\n")
+        open(os.path.join(top, "form\x0cfeed.txt"), "w").write("a name with a form feed\n")
+        open(os.path.join(top, "nel\u0085name.txt"), "w").write("a name with NEL\n")
         open(os.path.join(top, ".abstract"), "w").write("Directory header line one\nline two\n")
         open(os.path.join(top, "local.txt.abstract"), "w").write("About the local file\n")
         open(os.path.join(top, ".Links"), "w").write(
@@ -2579,8 +2826,23 @@ def r_links(d):
             seen[proto] = {k: canon(proto, v, "64777") for k, v in targets(proto, out).items()}
         ref = seen["gopher"]
         # every protocol's link to a local file, followed in that protocol, delivers the file (names with literal %XX included)
-        for fname in ("local.txt", "release%20notes.txt", "50%25 off.txt"):
+        for fname in ("local.txt", "release%20notes.txt", "50%25 off.txt", "a+b=c (1).txt", "g++ notes;v2.txt", "line\u2028sep.txt", "form\x0cfeed.txt", "nel\u0085name.txt"):
             content = open(os.path.join(top, fname), "rb").read()
+            # the Gopher family: the selector advertised for the file (split on TAB / CR LF only), sent back byte for byte
+            for gp_label, gp_rq in (("gopher", b"/\r\n"), ("gopher+", b"/\t+\r\n")):
+                out, _l = _serve(gp_rq, cfg)
+                if gp_label == "gopher+":
+                    out = out.partition(b"\r\n")[2]
+                sel_ = None
+                for l_ in out.split(b"\r\n"):
+                    f_ = l_.split(b"\t")
+                    if len(f_) >= 4 and f_[0][1:].decode("utf-8", "surrogateescape") == fname:
+                        sel_ = f_[1]
+                if sel_ is None:
+                    return {"confirmed": True, "scenario": "the local file %r has no line of its own in the %s menu" % (fname, gp_label), "menu": repr(out[:400])}
+                body, _l = _serve(sel_ + b"\r\n", cfg)
+                if body != content:
+                    return {"confirmed": True, "scenario": "following the %s selector %r advertised for the file %r does not deliver the file" % (gp_label, sel_, fname), "response": repr(body[:120])}
             for proto in ("http", "gemini", "spartan"):
                 raw = None
                 out, _l = _serve(reqs[proto][0], cfg, tls=reqs[proto][1])
@@ -2613,7 +2875,7 @@ def r_links(d):
         def infos(proto, out):
             text = out.decode("utf-8", "replace")
             if proto.startswith("gopher"):
-                return [l.split("\t")[0][1:] for l in text.split("\r\n") if l.startswith("i") or l.startswith("+INFO: i")]
+                return [(l[len("+INFO: "):] if l.startswith("+INFO: ") else l).split("\t")[0][1:] for l in text.split("\r\n") if l.startswith("i") or l.startswith("+INFO: i")]
             if proto == "http":
                 return None
             return [l for l in text.split("\n") if l and not l.startswith("=") and not l.startswith("#") and not l[:2].isdigit()]
@@ -2622,7 +2884,7 @@ def r_links(d):
                 cfg.set("pygopherd", "abstract_headers", headers)
                 cfg.set("pygopherd", "abstract_entries", entries)
                 got = {}
-                for proto, rq, tls in (("gopher", b"/\r\n", False), ("gopher+", b"/\t+\r\n", False), ("gemini", b"gemini://localhost/\r\n", True), ("spartan", b"localhost / 0\r\n", False)):
+                for proto, rq, tls in (("gopher", b"/\r\n", False), ("gopher+", b"/\t+\r\n", False), ("gopher+ $", b"/\t$\r\n", False), ("gemini", b"gemini://localhost/\r\n", True), ("spartan", b"localhost / 0\r\n", False)):
                     hb.rootpath = None; hm.rootpath = None; hm.handlers = None
                     out, _l = _serve(rq, cfg, tls=tls)
                     got[proto] = [x.strip() for x in (infos(proto, out) or []) if x.strip() and "footer" not in x.lower()]
@@ -2639,6 +2901,8 @@ for _q in ("pygopherd/protocols/http.py::HTTPProtocol.renderobjinfo", "pygopherd
            "pygopherd/protocols/gemini.py::GeminiProtocol.renderobjinfo", "pygopherd/protocols/spartan.py::SpartanProtocol.renderobjinfo", "pygopherd/gopherentry.py::GopherEntry.geturl",
            "pygopherd/protocols/base.py::BaseGopherProtocol.renderabstract"):
     REALISERS.append((_q, r_links))
+_prev_gri = find("pygopherd/protocols/rfc1436.py::GopherProtocol.renderobjinfo")
+REALISERS.append(("pygopherd/protocols/rfc1436.py::GopherProtocol.renderobjinfo", lambda d: (_first_confirmed(r_links, _prev_gri)(d) if d.get("kind") == "standin" else _prev_gri(d))))
 _prev_wd = find("pygopherd/protocols/base.py::BaseGopherProtocol.writedir")
 REALISERS.append(("pygopherd/protocols/base.py::BaseGopherProtocol.writedir", lambda d: (_first_confirmed(r_links, _prev_wd)(d) if d.get("kind") == "standin" else _prev_wd(d))))
 
